@@ -134,6 +134,7 @@ SAMPLED = {}
 def _s(file, fns, ep):
     for f in fns: SAMPLED[file + ':' + f] = ep
 _s('auth/api/iam/openid4vp.go', ['Wrapper.getClientMetadataFromRequest', 'Wrapper.getPresentationDefinitionFromRequest'], 'iam.handleAuthorizeRequestFromVerifier')
+_s('auth/client/iam/client.go', ['HTTPClient.PresentationDefinition', 'checkNoNullEntries'], 'iamclient.PresentationDefinition')
 _s('vcr/revocation/statuslist2021_verifier.go', ['StatusList2021.Verify', 'StatusList2021.statusList', 'StatusList2021.update', 'StatusList2021.download', 'StatusList2021.verify', 'StatusList2021.validate'], 'revocation.Verify / revocation.statusListCredential')
 _s('vcr/revocation/bitstring.go', ['bitstring.Scan', 'expand'], 'revocation.bitstring.Scan / revocation.statusListCredential')
 _s('vdr/didkey/resolver.go', ['Resolver.Resolve', 'unmarshalEC'], 'didkey.Resolve')
